@@ -71,24 +71,7 @@ func (x *Exec) call(fr *Frame, st *State, in ssa.CallInstruction, pos token.Pos)
 		}
 	}
 	if fv.K == KFunc && fv.Term != nil && x.rootFrame != nil && x.rootFrame.contract != nil && x.rootFrame.contract.PureCallbacks {
-		x.trusted["callbacks supplied by the caller (function values of unknown identity) are pure, deterministic functions of their arguments"] = true
-		ts := []*Term{fv.Term}
-		for _, a := range args {
-			ts = append(ts, leafTerms(a)...)
-		}
-		if resT == nil {
-			return nil
-		}
-		i := 0
-		sigName := sanitize(shortType(c.Value.Type()))
-		v := buildValue(resT, func(l Leaf) *Term {
-			r := x.ctx.App(fmt.Sprintf("cb$%s$%d", sigName, i), l.Sort, ts...)
-			i++
-			return r
-		})
-		x.facts = append(x.facts, x.typeInv(v))
-		x.boundRefs(v, x.allocNow())
-		return v
+		return x.callbackCall(fv, c.Value.Type(), args, resT)
 	}
 	x.unmod["call through function value "+exprText(c.Value)] = true
 	x.havocAll(st)
@@ -223,8 +206,9 @@ func (x *Exec) callStatic(fr *Frame, st *State, fn *ssa.Function, args, bind []*
 	// ghost: remember the results of tracked callees (ret(F, k) in contracts)
 	if r != nil && x.retCells != nil {
 		name := fn.String()
-		for _, k := range []string{name, funcDisplayName(fn), fn.Name()} {
-			if c, ok := x.retCells[k]; ok {
+		gb, gi := genericNames(fn)
+		for _, k := range []string{name, funcDisplayName(fn), fn.Name(), gb, gi} {
+			if c, ok := x.retCells[k]; ok && k != "" {
 				c.T = r.T
 				st.cells[c] = r
 				x.cellsW[c] = true
@@ -771,8 +755,10 @@ func (x *Exec) callSiteObligations(fr *Frame, st *State, fn *ssa.Function, name 
 		return
 	}
 	short := funcDisplayName(fn)
+	genBase, genInst := genericNames(fn)
 	matches := func(callee string) bool {
-		return callee == name || callee == short || callee == fn.Name() || (fn.Pkg != nil && callee == fn.Pkg.Pkg.Name()+"."+short)
+		return callee == name || callee == short || callee == fn.Name() || (fn.Pkg != nil && callee == fn.Pkg.Pkg.Name()+"."+short) ||
+			(genBase != "" && (callee == genBase || callee == genInst))
 	}
 	for _, cc := range x.rootFrame.contract.Calls {
 		callee := cc.Callee
@@ -790,6 +776,7 @@ func (x *Exec) callSiteObligations(fr *Frame, st *State, fn *ssa.Function, name 
 		root := x.rootFrame
 		for i, p := range root.fn.Params {
 			vars[p.Name()] = root.params[i]
+			vars["root_"+p.Name()] = root.params[i] // not shadowed by a callee parameter of the same name
 		}
 		// callee parameters (shadowing)
 		if ec, ok := x.db.Externs[name]; ok && len(ec.Params) > 0 {
@@ -824,6 +811,14 @@ func (x *Exec) callSiteObligations(fr *Frame, st *State, fn *ssa.Function, name 
 		} else if c, ok := x.calledCells[fn.Name()]; ok {
 			st.cells[c] = scalar(tBool, True)
 			x.cellsW[c] = true
+		}
+		if genBase != "" {
+			for _, k := range []string{genBase, genInst} {
+				if c, ok := x.calledCells[k]; ok {
+					st.cells[c] = scalar(tBool, True)
+					x.cellsW[c] = true
+				}
+			}
 		}
 	}
 }
@@ -972,4 +967,44 @@ func (x *Exec) pureArgTerms(st *State, args []*Value) []*Term {
 		ats = append(ats, leafTerms(a)...)
 	}
 	return ats
+}
+
+// genericNames returns, for an instantiation f[T1,T2], the names "f" and "f[T1,T2]" with the
+// type arguments written without package paths ("" when fn is not an instantiation).
+func genericNames(fn *ssa.Function) (string, string) {
+	if fn == nil || len(fn.TypeArgs()) == 0 {
+		return "", ""
+	}
+	base := fn.Name()
+	if i := strings.Index(base, "["); i >= 0 {
+		base = base[:i]
+	}
+	var as []string
+	for _, t := range fn.TypeArgs() {
+		as = append(as, shortType(t))
+	}
+	return base, base + "[" + strings.Join(as, ",") + "]"
+}
+
+// callbackCall: result of calling a function value of unknown identity under `purecallbacks`:
+// uninterpreted functions of (function identity, argument leaves).
+func (x *Exec) callbackCall(fv *Value, ft types.Type, args []*Value, resT types.Type) *Value {
+	x.trusted["callbacks supplied by the caller (function values of unknown identity) are pure, deterministic functions of their arguments"] = true
+	ts := []*Term{fv.Term}
+	for _, a := range args {
+		ts = append(ts, leafTerms(a)...)
+	}
+	if resT == nil {
+		return nil
+	}
+	i := 0
+	sigName := sanitize(shortType(ft))
+	v := buildValue(resT, func(l Leaf) *Term {
+		r := x.ctx.App(fmt.Sprintf("cb$%s$%d", sigName, i), l.Sort, ts...)
+		i++
+		return r
+	})
+	x.facts = append(x.facts, x.typeInv(v))
+	x.boundRefs(v, x.allocNow())
+	return v
 }
